@@ -829,7 +829,7 @@ func visitMappingNodeFields(content []*yaml.Node, fn func(key, value *yaml.Node)
 // should ensure that content is from a mapping node, or fits the same expected
 // pattern (consecutive key/value entries in the slice).
 func visitFieldsWhileTrue(content []*yaml.Node, fn func(key, value *yaml.Node, keyIndex int) bool) {
-	for i := 0; i < len(content); i += 2 {
+	for i := 0; i+1 < len(content); i += 2 {
 		continueVisiting := fn(content[i], content[i+1], i)
 		if !continueVisiting {
 			return
